@@ -120,6 +120,25 @@ def run_case(case):
     obs["max_joint_condition"] = kappa
     tol = TOL * max(1.0, cond_hint * 1e-6) + 1e-13 * kappa
     if not err <= tol:
+        # measured conditioning of the quantity itself: the 50-digit log-density of the same posterior with every stored
+        # number, datum and noise level moved by one unit roundoff (random signs). No float64 algorithm can be more accurate
+        # than a modest multiple of that change, so it is added to the tolerance (only evaluated when the cheap bounds fail).
+        pr = np.random.default_rng(case["seedc"] + 1)
+        u = 2.0**-52
+        worst = 0.0
+        for _ in range(3):
+            post_p = jax.tree.map(lambda x: np.asarray(x, float) * (1.0 + u * pr.choice([-1.0, 1.0], size=np.shape(x))), post)
+            mp_p, cov_p = extract.markov_joint_mp(post_p, d)
+            M_p, P_p = extract.joint_matrix_mp(mp_p, cov_p, rows)
+            sd_p = std_full * (1.0 + u * pr.choice([-1.0, 1.0], size=std_full.shape))
+            y_p = data * (1.0 + u * pr.choice([-1.0, 1.0], size=data.shape))
+            ref_p = _logpdf(mpl.M(y_p), M_p, P_p + mpl.M(np.diag(sd_p)) * mpl.M(np.diag(sd_p)))
+            ref_p = float(ref_p / T) if case["average"] else float(ref_p)
+            worst = max(worst, abs(ref_p - ref) / (abs(ref) + 1e-8))
+        obs["conditioning_measured"] = 1
+        obs["max_measured_sensitivity"] = worst
+        tol = tol + 20 * worst
+    if not err <= tol:
         viols.append(util.viol("timeseries_loss", f"loss_lml_timeseries={got!r} but the log-density of the data under the joint smoothing posterior plus noise is {ref!r} (rel {err:.3g})",
                                tags=tags, witness={"times": times, "std": std, "T": T}))
     # the full smoothing solution (with filtering marginals) must give the same value
